@@ -489,60 +489,72 @@ end LR
     * `Forward.parseImpl` (core.py:5711, left-recursion mode only: core.py:5690 returns before it otherwise) holds
       `recursion_lock` (R) across the parse of its body, parse actions included — so a nested entry call made by an
       action takes P (for `reset_cache()`) while R is held;
-    * packrat and left-recursion mode exclude each other (core.py:1107, 1154), so P is never held while R is taken.
-  Hence the one global order of the unchanged code is  R before P  (`codeRank`).
+    * packrat and left-recursion mode exclude each other (core.py:1107, 1154), so P is never held while R is taken;
+    * every `Forward` uses the ONE class-wide `recursion_lock` (no element instance carries a lock of its own).
+  Hence the one global order of the unchanged code is  R before P  (`codeRank`).  The machine itself is stated for
+  any number of locks, so that a lock per `Forward` instance can be expressed (and shown to have no order).
   A thread is abstracted to the list of its lock operations (`tau` = any other step). -/
 namespace Locks
 
-inductive Lock where
-  | R   -- ParserElement.recursion_lock
-  | P   -- ParserElement.packrat_cache_lock
-  deriving DecidableEq, Repr, Inhabited
+/-- lock identities: 0 = `ParserElement.recursion_lock`, 1 = `ParserElement.packrat_cache_lock` (the two class-wide
+    locks of the unchanged code), 2 + i = a lock object stored on the i-th element INSTANCE (the unchanged code has
+    none - generated fact `Gen.instanceLocks = 0`, PPProofs/Props/Gen/C15Locks.lean; the scheduler wraps any it finds
+    on the live grammar objects as `F<i>`) -/
+abbrev Lock := Nat   -- (signatures below say `Nat` so that `omega` sees through)
+def R : Nat := 0
+def P : Nat := 1
+def F (i : Nat) : Nat := i + 2
 
 inductive Op where
-  | acq (l : Lock)
-  | rel (l : Lock)
+  | acq (l : Nat)
+  | rel (l : Nat)
   | tau
   deriving DecidableEq, Repr, Inhabited
 
-/-- the acquisition order of the unchanged code: `recursion_lock` before `packrat_cache_lock` -/
-def codeRank : Lock → Nat
-  | .R => 0
-  | .P => 1
+/-- the acquisition order of the unchanged code: `recursion_lock` before `packrat_cache_lock`; an instance-level
+    lock has no place in it (it ranks with `recursion_lock`, so two of them can never be nested in order) -/
+def codeRank : Nat → Nat
+  | 1 => 1
+  | _ => 0
 
-abbrev Held := Lock → Nat
+abbrev Held := Nat → Nat
 
 def Held.zero : Held := fun _ => 0
-def Held.inc (h : Held) (l : Lock) : Held := fun l' => if l' = l then h l' + 1 else h l'
-def Held.dec (h : Held) (l : Lock) : Held := fun l' => if l' = l then h l' - 1 else h l'
+def Held.inc (h : Held) (l : Nat) : Held := fun l' => if l' = l then h l' + 1 else h l'
+def Held.dec (h : Held) (l : Nat) : Held := fun l' => if l' = l then h l' - 1 else h l'
 
-/-- `lowerHeld rank h l`: every lock the thread holds ranks strictly below `l` -/
-def lowerHeld (rank : Lock → Nat) (h : Held) (l : Lock) : Bool :=
-  (h .R == 0 || decide (rank .R < rank l)) && (h .P == 0 || decide (rank .P < rank l))
+/-- `lowerHeld n rank h l`: every lock (of the `n` locks of the system) the thread holds ranks strictly below `l` -/
+def lowerHeld (n : Nat) (rank : Nat → Nat) (h : Held) (l : Nat) : Bool :=
+  (List.range n).all fun l' => h l' == 0 || decide (rank l' < rank l)
 
-/-- the program respects the order `rank` from hold counts `h` on: a lock that is not already held (RLock
-    re-entrancy) is acquired only while every held lock ranks below it; only held locks are released; at the end
-    nothing is held -/
-def ordered (rank : Lock → Nat) : Held → List Op → Bool
-  | h, [] => h .R == 0 && h .P == 0
-  | h, .tau :: r => ordered rank h r
-  | h, .acq l :: r => (decide (0 < h l) || lowerHeld rank h l) && ordered rank (h.inc l) r
-  | h, .rel l :: r => decide (0 < h l) && ordered rank (h.dec l) r
+def noneHeld (n : Nat) (h : Held) : Bool := (List.range n).all fun l' => h l' == 0
+
+/-- the program respects the order `rank` over the locks `0 .. n-1` from hold counts `h` on: a lock that is not
+    already held (RLock re-entrancy) is acquired only while every held lock ranks below it; only held locks are
+    released; at the end nothing is held -/
+def ordered (n : Nat) (rank : Nat → Nat) : Held → List Op → Bool
+  | h, [] => noneHeld n h
+  | h, .tau :: r => ordered n rank h r
+  | h, .acq l :: r =>
+      decide (l < n) && (decide (0 < h l) || lowerHeld n rank h l) && ordered n rank (h.inc l) r
+  | h, .rel l :: r => decide (0 < h l) && ordered n rank (h.dec l) r
 
 /-- index of the first operation that breaks the discipline (`none`: the program is ordered) -/
-def firstViolation (rank : Lock → Nat) : Held → Nat → List Op → Option Nat
-  | h, i, [] => if h .R == 0 && h .P == 0 then none else some i
-  | h, i, .tau :: r => firstViolation rank h (i + 1) r
+def firstViolation (n : Nat) (rank : Nat → Nat) : Held → Nat → List Op → Option Nat
+  | h, i, [] => if noneHeld n h then none else some i
+  | h, i, .tau :: r => firstViolation n rank h (i + 1) r
   | h, i, .acq l :: r =>
-      if decide (0 < h l) || lowerHeld rank h l then firstViolation rank (h.inc l) (i + 1) r else some i
-  | h, i, .rel l :: r => if 0 < h l then firstViolation rank (h.dec l) (i + 1) r else some i
+      if decide (l < n) && (decide (0 < h l) || lowerHeld n rank h l) then
+        firstViolation n rank (h.inc l) (i + 1) r
+      else some i
+  | h, i, .rel l :: r => if 0 < h l then firstViolation n rank (h.dec l) (i + 1) r else some i
 
 structure LState where
-  owner : Lock → Option Tid
-  count : Lock → Nat
+  owner : Nat → Option Tid
+  count : Nat → Nat
   prog : Tid → List Op
 
-def setL {α : Type} (f : Lock → α) (l : Lock) (x : α) : Lock → α := fun l' => if l' = l then x else f l'
+def setL {α : Type} (f : Nat → α) (l : Nat) (x : α) : Nat → α := fun l' => if l' = l then x else f l'
 
 /-- one step of thread `t`; `none`: finished, or blocked at an `acquire` of a lock another thread owns -/
 def lstep (s : LState) (t : Tid) : Option LState :=
@@ -566,21 +578,22 @@ inductive LReach : LState → LState → Prop where
 def linit (prog : Tid → List Op) : LState := ⟨fun _ => none, fun _ => 0, prog⟩
 
 /-- `reset_cache()`: acquire P; packrat_cache.clear(); recursion_memos.clear(); release P -/
-def reset : List Op := [.acq .P, .tau, .tau, .rel .P]
+def reset : List Op := [.acq P, .tau, .tau, .rel P]
 
 /-- lock programs of `_parse` in modes off / packrat: `_parseCache` calls, and nested entry calls made by
     parse actions (`reset_cache()` followed by the nested parse) -/
 inductive PackratProg : List Op → Prop where
   | nil : PackratProg []
   | tau {p} : PackratProg p → PackratProg (.tau :: p)
-  | cached {a b} : PackratProg a → PackratProg b → PackratProg (.acq .P :: (a ++ .rel .P :: b))
+  | cached {a b} : PackratProg a → PackratProg b → PackratProg (.acq P :: (a ++ .rel P :: b))
   | entry {p} : PackratProg p → PackratProg (reset ++ p)
 
-/-- lock programs of `_parse` in left-recursion mode: `Forward.parseImpl` calls and nested entry calls -/
+/-- lock programs of `_parse` in left-recursion mode: `Forward.parseImpl` calls (every Forward takes the class-wide
+    lock R) and nested entry calls -/
 inductive LRProg : List Op → Prop where
   | nil : LRProg []
   | tau {p} : LRProg p → LRProg (.tau :: p)
-  | forward {a b} : LRProg a → LRProg b → LRProg (.acq .R :: (a ++ .rel .R :: b))
+  | forward {a b} : LRProg a → LRProg b → LRProg (.acq R :: (a ++ .rel R :: b))
   | entry {p} : LRProg p → LRProg (reset ++ p)
 
 /-! executable runs (driver, `decide`d examples) -/
